@@ -280,8 +280,48 @@ def run_create(version, key, detach, single_hop, auth, ports_forms, entry='creat
     return dict(viol=viol, obs=obs, log=log)
 
 
+def run_discovered(which, sid):
+    """a service Tor already has (listed under onions/current or onions/detached when the configuration is read): its address
+    is that id + '.onion', and removing it sends DEL_ONION for exactly that id"""
+    viol = []
+    with World() as w:
+        from mc.simtor import connected_protocol, finish_bootstrap
+        from txtorcon.torconfig import TorConfig
+        proto, wire, sim = connected_protocol(w)
+        sim.info['config/names'] = ['SocksPort Dependent', 'SocksPortLines Virtual', '__SocksPort Dependent']
+        sim.conf['SocksPort'] = ['9050']
+        sim.conf['__SocksPort'] = []
+        sim.conf_types.update({'SocksPort': 'Dependent', '__SocksPort': 'Dependent'})
+        sim.info['config/defaults'] = []
+        sim.info['onions/' + which] = sid
+        sim.onions[sid] = dict(service_id=sid, flags=['Detach'] if which == 'detached' else [])
+        cfg = TorConfig(proto)
+        boot = []
+        cfg.post_bootstrap.addCallbacks(lambda c: boot.append('ok'), lambda f: boot.append(f))
+        finish_bootstrap(proto)
+        sim.pump()
+        if boot != ['ok']:
+            return dict(viol=[('bootstrap', 'discovered', repr(boot))], obs=('x',), log=[])
+        lst = cfg.EphemeralOnionServices if which == 'current' else cfg.DetachedOnionServices
+        if len(lst) != 1:
+            viol.append(('discovered-services', which, 'Tor lists %r, the configuration has %d services' % (sid, len(lst))))
+            return dict(viol=viol, obs=('n', len(lst)), log=[])
+        svc = lst[0]
+        if svc.hostname != sid + '.onion':
+            viol.append(('service-address', 'discovered/' + which, 'Tor lists service %r; its hostname reads %r' % (sid, svc.hostname)))
+        base = len(sim.commands)
+        res = []
+        svc.remove().addCallbacks(lambda x: res.append('ok'), lambda f: res.append(f.getErrorMessage()))
+        sim.pump()
+        cmds = sim.commands[base:]
+        if cmds != ['DEL_ONION ' + sid]:
+            viol.append(('del-onion', 'discovered/' + which, 'removing the service Tor lists as %r sent %r' % (sid, cmds)))
+        obs = (svc.hostname, tuple(cmds), tuple(res))
+    return dict(viol=viol, obs=obs, log=['onions/%s=%s' % (which, sid), 'commands: %r' % (cmds,)])
+
+
 def tasks(tier, seed):
-    out = []
+    out = [('discovered',)]
     for version in (2, 3):
         for key in KEYS:
             out.append(('prod', version, key))
@@ -311,6 +351,12 @@ def port_lists(tier):
 
 
 def run_task(param, acc):
+    if param[0] == 'discovered':
+        for which in ('current', 'detached'):
+            for sid in (RSA_SID, 'v3serviceid' + 'x' * 45):
+                r = run_discovered(which, sid)
+                rec_exec(acc, ('discovered', which, sid), r, dict(entry='discovered', which=which, sid=sid), cost=2)
+        return
     if param[0] == 'prod':
         _, version, key = param
         r = None
@@ -346,6 +392,9 @@ def run_task(param, acc):
 
 
 def replay(p):
+    if p.get('entry') == 'discovered':
+        r = run_discovered(p['which'], p['sid'])
+        return dict(violations=[dict(signature='%s/%s' % (c, f), what=d) for c, f, d in r['viol']], log=r['log'])
     r = run_create(p['version'], p['key'], p['detach'], p['single_hop'], p['auth'], tuple(p['ports']), entry=p['entry'],
                    echo_key=p.get('echo', False), bad=p.get('bad'))
     return dict(violations=[dict(signature='%s/%s' % (c, f), what=d) for c, f, d in r['viol']], log=r['log'])
